@@ -148,6 +148,13 @@ struct Gen {
 		else if (ok("fault:cancel.abort")) { Fault f; f.kind = "cancel.abort"; f.a["at"] = std::to_string(r.below(6)); static const int sk[] = {20, 30, 50, 100}; f.a["skip"] = std::to_string(sk[r.below(4)]); o.faults.push_back(f); }
 	}
 	void add_float_faults(Op &o, int maxstage) {
+		if (r.chance(1, 7)) {   // a float component that is wrong in the same way at every precision (stage -1): the ladder runs out of stages
+			// with every claim refuted, and what the driver says then must still not be a verdict it never certified
+			Fault b; b.kind = "flt.basis"; b.a["stage"] = "-1"; b.a["mode"] = "swap"; b.a["k"] = std::to_string(r.below(1000)); if (ok("fault:flt.basis")) o.faults.push_back(b);
+			Fault v; v.kind = "flt.vec"; v.a["stage"] = "-1"; v.a["which"] = std::vector<std::string>{"x", "pi", "infeas"}[r.below(3)]; v.a["mode"] = std::vector<std::string>{"neg", "one", "huge", "bump"}[r.below(4)]; v.a["idx"] = std::to_string(r.below(40)); if (ok("fault:flt.vec")) o.faults.push_back(v);
+			if (r.chance(1, 2)) { Fault s; s.kind = "flt.status"; s.a["stage"] = "-1"; s.a["to"] = std::to_string(r.below(2)); if (ok("fault:flt.status")) o.faults.push_back(s); }
+			return;
+		}
 		int k = r.range(1, 3);
 		for (int t = 0; t < k; t++) {
 			Fault f; int kind = (int)r.below(7); int st = r.range(0, maxstage); f.a["stage"] = std::to_string(st);
@@ -173,7 +180,7 @@ struct Gen {
 	Op gen_invalid(int client) {
 		if (r.chance(1, 3)) { Op o = mk(client, "qinvalid"); seti(o, "o", r.below(4)); seti(o, "v", r.below(7 * 16 * 4)); return o; }
 		if (r.chance(1, 8)) { Op o = mk(client, "param"); seti(o, "o", r.below(4)); Fault f; f.kind = "api.invalid"; f.a["v"] = std::to_string(r.below(72)); o.faults.push_back(f); return o; }
-		if (r.chance(1, 8) && ok("invalid:loadbasis")) { Op o = mk(client, "basis"); seti(o, "o", r.below(4)); set(o, "what", "load"); Fault f; f.kind = "api.invalid"; f.a["v"] = std::to_string(r.below(1000)); o.faults.push_back(f); return o; }
+		if (r.chance(1, 7) && ok("invalid:loadbasis")) { Op o = mk(client, "basis"); seti(o, "o", r.below(4)); set(o, "what", "load"); Fault f; f.kind = "api.invalid"; f.a["v"] = std::to_string(r.below(8000)); o.faults.push_back(f); return o; }
 		Op o = gen_edit(client); Fault f; f.kind = "api.invalid"; f.a["v"] = std::to_string(r.below(7 * 2 * 5 * 3)); o.faults.push_back(f); return o;
 	}
 	Op gen_create(int client, int nlps) { Op o = mk(client, "create"); seti(o, "lp", r.below(nlps ? nlps : 1)); static const char *h[] = {"build", "build1", "colwise", "load", "build"}; set(o, "how", r.chance(1, 30) ? "empty" : h[r.below(5)]); return o; }
@@ -377,7 +384,8 @@ void profile_io(Gen &g, bool damage_heavy) {
 		int ne = r.range(0, 4); for (int e = 0; e < ne; e++) p.ops.push_back(g.gen_edit(0));
 		if (r.chance(1, 3)) { Op s = g.gen_solve(0, ""); if (g.faults && r.chance(1, 3)) g.add_interruption(s); p.ops.push_back(s); }
 		int d = (int)r.below(10);
-		if (d < 6 || damage_heavy) {
+		if (damage_heavy) d = r.chance(11, 20) ? 0 : r.chance(4, 9) ? 6 : 8;   // reader profile: 55% library-written problem files, 20% basis files, 25% foreign problem files - all of them damaged
+		if (d < 6) {
 			Op w = g.mk(0, "write"); g.seti(w, "o", r.below(4)); g.set(w, "fmt", r.chance(1, 2) ? "LP" : "MPS"); g.set(w, "via", std::vector<std::string>{"path", "path", "file", "reporter"}[r.below(4)]);
 			g.set(w, "path", strf("f%d", nfile++)); g.seti(w, "comp", r.below(3)); io_faults(w, true); p.ops.push_back(w);
 			if (damage_heavy || (g.faults && r.chance(1, 3))) { int nd = r.range(1, 2); for (int t = 0; t < nd; t++) { Op dm = g.mk(0, "damage"); g.seti(dm, "pick", r.below(8)); g.set(dm, "kind", std::vector<std::string>{"torn", "flip", "zero_tail", "block_drop", "block_dup", "token", "token", "torn"}[r.below(8)]); g.seti(dm, "at", r.below(100000)); g.seti(dm, "len", r.below(56)); g.seti(dm, "bit", r.below(8)); p.ops.push_back(dm); } }
@@ -387,10 +395,14 @@ void profile_io(Gen &g, bool damage_heavy) {
 				Op w2 = g.mk(0, "write"); g.seti(w2, "o", -1); g.set(w2, "fmt", w.s("fmt") == "LP" ? "MPS" : "LP"); g.set(w2, "via", "path"); g.set(w2, "path", strf("f%d", nfile++)); g.seti(w2, "comp", r.below(3)); p.ops.push_back(w2);
 				Op r2 = g.mk(0, "read"); g.seti(r2, "pick", -1); g.set(r2, "via", "path"); p.ops.push_back(r2);
 			}
-		} else if (d < 8 && !damage_heavy) {
-			Op b = g.mk(0, "wbasis"); g.seti(b, "o", r.below(4)); g.set(b, "src", r.chance(1, 2) ? "own" : "given"); g.seti(b, "k", r.below(8)); g.set(b, "path", strf("b%d", nfile++)); g.seti(b, "comp", r.chance(1, 4) ? r.below(3) : 0); io_faults(b, true); p.ops.push_back(b);
-			if (g.faults && r.chance(1, 4)) { Op dm = g.mk(0, "damage"); g.seti(dm, "pick", r.below(8)); g.set(dm, "kind", std::vector<std::string>{"torn", "flip", "zero_tail"}[r.below(3)]); g.seti(dm, "at", r.below(100000)); p.ops.push_back(dm); }
-			Op rb = g.mk(0, "rbasis"); g.seti(rb, "o", b.i("o")); g.seti(rb, "pick", r.below(8)); g.set(rb, "how", r.chance(1, 2) ? "read" : "load"); if (r.chance(1, 12)) g.seti(rb, "missing", 1); io_faults(rb, false); p.ops.push_back(rb);
+		} else if (d < 8) {
+			bool foreign = g.ok("fbasis") && (damage_heavy ? r.chance(1, 2) : g.faults && r.chance(1, 4));   // a basis file from a foreign producer: other layouts, and (3 in 4) files that are well-formed line by line but describe no basis
+			Op b = g.mk(0, foreign ? "fbasis" : "wbasis"); g.seti(b, "o", r.below(4)); g.set(b, "path", strf("b%d", nfile++)); g.seti(b, "comp", r.chance(1, 4) ? r.below(3) : 0);
+			if (foreign) { g.seti(b, "pat", r.below(100000)); g.seti(b, "style", r.below(1000)); g.seti(b, "mal", r.chance(1, 4) ? 0 : r.range(1, 12)); }
+			else { g.set(b, "src", r.chance(1, 2) ? "own" : "given"); g.seti(b, "k", r.below(8)); io_faults(b, true); }
+			p.ops.push_back(b);
+			if (!foreign && (damage_heavy || (g.faults && r.chance(1, 4)))) { Op dm = g.mk(0, "damage"); g.seti(dm, "pick", r.below(8)); g.set(dm, "kind", std::vector<std::string>{"torn", "flip", "zero_tail", "token", "token", "block_dup"}[r.below(damage_heavy ? 6 : 3)]); g.seti(dm, "at", r.below(100000)); g.seti(dm, "len", r.below(56)); g.seti(dm, "bit", r.below(8)); p.ops.push_back(dm); }
+			Op rb = g.mk(0, "rbasis"); g.seti(rb, "o", b.i("o")); g.seti(rb, "pick", foreign ? -2 : (long)r.below(8)); g.set(rb, "how", r.chance(1, 2) ? "read" : "load"); if (r.chance(1, 12)) g.seti(rb, "missing", 1); io_faults(rb, false); p.ops.push_back(rb);
 			if (r.chance(1, 2)) p.ops.push_back(g.gen_solve(0, ""));
 		} else {
 			Op f = g.mk(0, "foreign"); if (r.chance(1, 2)) g.seti(f, "o", r.below(4)); else g.seti(f, "lp", r.below(nl)); g.set(f, "fmt", r.chance(1, 2) ? "LP" : "MPS"); g.set(f, "path", strf("f%d", nfile++)); g.seti(f, "comp", r.below(3)); g.seti(f, "style", r.below(1000)); p.ops.push_back(f);
